@@ -233,7 +233,7 @@ func (fr *Frame) execInstr(in ssa.Instruction) bool {
 		r := e.newRef(fr.st, x.Name())
 		e.zeroInit(fr.st, r, T)
 		e.zeroGhosts(fr, r, T)
-		if !x.Heap || nonEscaping(x, 0) {
+		if !x.Heap || nonEscaping(x, 0) || (!isAggregate(T) && capturedReadOnly(x, 0)) {
 			if st := structOf(T); st != nil {
 				var keys []string
 				for i := 0; i < st.NumFields(); i++ {
